@@ -133,6 +133,7 @@ class Scripted : public Oomd::Engine::BasePlugin {
     id_ = it->second;
     if (auto c = args.find("cgroup"); c != args.end()) cgroupArg_ = c->second;
     if (auto f = args.find("fail_init"); f != args.end()) return 1;
+    if (auto b = args.find("busy"); b != args.end()) busy_ = atof(b->second.c_str());
     Call c;
     c.id = id_;
     c.method = "init";
@@ -151,6 +152,10 @@ class Scripted : public Oomd::Engine::BasePlugin {
   Oomd::Engine::PluginRet run(Oomd::OomdContext& ctx) override {
     int r = decide ? decide(id_, inst_) : 0;
     record("run", ctx, r);
+    if (busy_ > 0) {  // a slow plugin: virtual time passes while it runs
+      vb::advanceClock(busy_);
+      calls.back().tEnd = vb::nowSec();
+    }
     return r == 0 ? Oomd::Engine::PluginRet::CONTINUE
                   : r == 1 ? Oomd::Engine::PluginRet::STOP : Oomd::Engine::PluginRet::ASYNC_PAUSED;
   }
@@ -182,6 +187,7 @@ class Scripted : public Oomd::Engine::BasePlugin {
     calls.push_back(c);
   }
   std::string id_, inst_, cgroupArg_;
+  double busy_ = 0;
 };
 
 // `verif_wrap`: transparent observer around a REAL plugin (args: wrap=<registered name>, id=<id>, rest
